@@ -101,7 +101,7 @@ def cont_harness(b):
                               extra=tuple(["-Wl,--start-group"] + b["libs"] + ["-Wl,--end-group"]))
 
 
-def lines_phase(chk, b, name, recs, workers=8):
+def lines_phase(chk, b, name, recs, workers=8, forms=True):
     """recs: [(id, text, ends)].  TLC (ReplLines.tla) must cut every text exactly at the ends of its forms (this is what
     makes `one form = one step' true for the layouts used); the transcription of scanIsContinued is compared with the
     real function line by line (drift only)."""
@@ -122,11 +122,12 @@ def lines_phase(chk, b, name, recs, workers=8):
     d = vlib.scratch("c13lines")
     path = os.path.join(d, "lines.ndjson")
     vlib.write_ndjson(path, out_recs)
-    r = vlib.tlc("ReplLines", "ReplLines", workers=workers, env={"LINES": path}, timeout=900)
-    chk.add_tlc("ReplLines[%s]" % name, r)
-    if r.violated:
-        raise vlib.MachineryError("ReplLines.tla: a rendered session text is not cut at the ends of its forms (%s)\n%s"
-                                  % (r.violated, r.trace_text[:1500]))
+    if forms:
+        r = vlib.tlc("ReplLines", "ReplLines", workers=workers, env={"LINES": path}, timeout=900)
+        chk.add_tlc("ReplLines[%s]" % name, r)
+        if r.violated:
+            raise vlib.MachineryError("ReplLines.tla: a rendered session text is not cut at the ends of its forms (%s)\n%s"
+                                      % (r.violated, r.trace_text[:1500]))
     r2 = vlib.tlc("ReplLines", "ReplLinesCode", workers=workers, env={"LINES": path}, timeout=900)
     chk.add_tlc("ReplLinesCode[%s]" % name, r2)
     chk.extra["scan_lines_compared"] = chk.extra.get("scan_lines_compared", 0) + sum(len(x["lines"]) for x in out_recs if "real" in x)
@@ -374,6 +375,42 @@ def table_phase(chk, b, wd, prefix, per_route, tier, seed):
         chk.sample({"table_session": r0["id"], "input": r0["text"][-1200:], "specified_projection": [list(t) for t in r0["exp"]][-12:]})
 
 
+def reader_phase(chk, b, wd, prefix, per_route, tier, seed):
+    """How the loop groups its input lines into steps (spec/ReplReader.tla)."""
+    d = vlib.scratch("c13rd")
+    path = os.path.join(d, "reader.json")
+    vlib.write_ndjson(path, [replsess.reader_config(seed, tier)])
+    r = vlib.tlc("ReplReader", "ReplReader", workers=vlib.NCPU if tier != "quick" else 6, env={"READER": path}, timeout=1500)
+    chk.add_tlc("ReplReader", r)
+    if r.violated:
+        chk.violation("ReplReader.tla violates %s" % r.violated, r.trace_text, key={"model": "ReplReader", "inv": r.violated})
+        return
+    sess = [json.loads(l[6:]) for l in r.printed if isinstance(l, str) and l.startswith("RSESS ")]
+    if not sess:
+        raise vlib.MachineryError("ReplReader.tla exported no session")
+    recs, lrecs = [], []
+    nitems = 0
+    for x in sorted(sess, key=lambda x: x["id"]):
+        text, exp, npre, name = replsess.render_reader(x)
+        nitems += len(x["items"])
+        recs.append({"id": name, "text": text, "exp": exp, "shapes": sorted(x["tags"]),
+                     "label": "loop reader" + (" packed" if x["packed"] else " single"), "key": {"family": "reader"},
+                     "nontrivial": True})
+        # the transcription of scanIsContinued against the real function on the lines of the session proper (drift only):
+        # they are expected to be cut where the transcription cut them
+        body = "".join(l + "\n" for l in text.split("\n")[npre:-2])
+        lrecs.append(("reader/%s" % name, body, list(x["pcuts"])))
+    chk.extra["reader_sessions"] = {"packed": sum(1 for x in sess if x["packed"]), "single": sum(1 for x in sess if not x["packed"]),
+                                    "items": nitems}
+    if len(set(r_["id"] for r_ in recs)) != len(recs):
+        raise vlib.MachineryError("ReplReader sessions: names are not distinct")
+    run_sessions(chk, b, wd, prefix, per_route, "reader", recs)
+    lines_phase(chk, b, "reader", lrecs, workers=4, forms=False)
+    if recs and len(chk.samples) < 6:
+        r0 = recs[0]
+        chk.sample({"reader_session": r0["id"], "input": r0["text"][-900:], "specified_projection": [list(t) for t in r0["exp"]][-10:]})
+
+
 ECHO_SESSION = """#include "axllib"
 SI ==> SingleInteger;
 import from SI, String;
@@ -447,7 +484,13 @@ def run(chk, tier):
     mark("select")
     run_family(chk, b, wd, prefix, "hist", progs, batch_exp, vev, layouts, per_route)
     mark("histories")
-    # 3. fixed sessions
+    # 3. the symbol table across steps: rejected forms that overlap names the session already has (ReplTab.tla)
+    table_phase(chk, b, wd, prefix, per_route, tier, seed)
+    mark("table")
+    # 4. the reader: grouping of input lines into steps (ReplReader.tla)
+    reader_phase(chk, b, wd, prefix, per_route, tier, seed)
+    mark("reader")
+    # 5. fixed sessions
     fixed_histories(chk, b, wd, prefix, per_route)
     chk.extra["candidate_programs_by_status"] = stats
     chk.extra["routes"] = per_route
